@@ -45,6 +45,8 @@ M = [
  ('c19-density-stored', 'biom/table.py', "            density = (self.nnz /\n                       (len(self.ids()) * len(self.ids(axis='observation'))))", "            density = (self.nnz /\n                       max(1, (len(self.ids()) * len(self.ids(axis='observation')) - (1 if self.shape[0] == 1 else 0))))", ['C19', 'C05']),
  ('c19-summarize-mean-as-median', 'biom/util.py', "                mean(counts),", "                median(counts) if len(counts) == 3 else mean(counts),", ['C19']),
  ('c20-errstate-all-partial', 'biom/err.py', "            to_update = [(err, new_state['all']) for err in self._state]", "            to_update = [(err, new_state['all']) for err in self._state if err != 'sampmdsize']", ['C20']),
+ ('c20-unregister-keeps-state', 'biom/err.py', "        state = self._state.pop(errtype)", "        state = self._state.get(errtype)", ['C20']),
+ ('c20-test-in-argument-order', 'biom/err.py', "        for errtype in sorted(args):", "        for errtype in args:", ['C20']),
  ('c20-call-gets-nothing', 'biom/err.py', "            'call': callback if callback is not None else lambda x: None,", "            'call': (lambda x: callback(x) if callback else None),", ['C20']),
 ]
 
